@@ -83,6 +83,13 @@ Proof.
   apply props_loop_fuel; cbn [length]; lia.
 Qed.
 
+Lemma varint_bytes_cons : forall n, exists a t, varint_bytes n = a :: t.
+Proof. intros. unfold varint_bytes. repeat destruct (_ <? _); eauto. Qed.
+Lemma varint_app_nonnil : forall n z, varint_bytes n ++ z <> [].
+Proof. intros n z. destruct (varint_bytes_cons n) as [a [t ->]]. discriminate. Qed.
+Lemma match_nonnil : forall A (l : list N) (x y : A), l <> [] -> match l with [] => x | _ :: _ => y end = y.
+Proof. intros A [|a l] x y H; [congruence|reflexivity]. Qed.
+
 (* ---------------------------------------------------------------- sorted association lists *)
 Lemma ps_set_snoc : forall id v l, (forall e, In e l -> fst e < id) -> ps_set id v l = l ++ [(id, v)].
 Proof.
@@ -322,6 +329,7 @@ Theorem props_unpack_pack : forall pt p rest,
 Proof.
   intros pt p rest Hinv Hlen. unfold props_pack, props_unpack.
   rewrite encode_varint_or_nil_bytes by assumption. rewrite <- app_assoc.
+  rewrite match_nonnil by apply varint_app_nonnil.
   rewrite varint_roundtrip by assumption. cbn [bind].
   destruct (N.eqb_spec (len (props_body p)) 0) as [E|E].
   - assert (Hb : props_body p = []) by (destruct (props_body p); [reflexivity|rewrite len_cons in E; lia]).
